@@ -101,7 +101,8 @@ def handle (j : Json) : Except String Json := do
       ("spec_G", ofM3 g), ("spec_V", ofFloat (fsqrt (gramDet g))), ("spec_M", ofM3 r), ("spec_recip", ofV3 nS),
       ("pts", Json.arr ptJ.toArray), ("pairs", Json.arr pairJ.toArray), ("us", Json.arr uJ.toArray)]
   | "hist" =>
-    -- one atom under a history of edits: {"cell", "xyz", "u", "new": bool, "edits": [{"op": "uvals"|"set_uvals"|"item"|"frac", …}]}
+    -- one atom of a Shelxfile object under a history of edits:
+    -- {"cell", "xyz", "u", "new": bool, "edits": [{"op": "uvals"|"set_uvals"|"item"|"frac"|"cell", …}]}
     let cl ← field j "cell" >>= floats
     let c ← cellOf cl
     let p ← field j "xyz" >>= floats >>= v3Of
@@ -109,19 +110,23 @@ def handle (j : Json) : Except String Json := do
     let isNew ← boolField j "new"
     let es ← (← arrField j "edits").mapM (fun e => do
       match ← strField e "op" with
-      | "uvals" => return Edit.assignUvals (← field e "u" >>= floats >>= u6Of)
-      | "set_uvals" => return Edit.setUvals (← field e "u" >>= floats >>= u6Of)
-      | "item" => return Edit.setItem (← natField e "k") (← floatField e "v")
-      | "frac" => return Edit.setFrac (← field e "xyz" >>= floats >>= v3Of)
+      | "uvals" => return FEdit.atomEdit (Edit.assignUvals (← field e "u" >>= floats >>= u6Of))
+      | "set_uvals" => return FEdit.atomEdit (Edit.setUvals (← field e "u" >>= floats >>= u6Of))
+      | "item" => return FEdit.atomEdit (Edit.setItem (← natField e "k") (← floatField e "v"))
+      | "frac" => return FEdit.atomEdit (Edit.setFrac (← field e "xyz" >>= floats >>= v3Of))
+      | "cell" => return FEdit.setCell (← field e "cell" >>= floats >>= cellOf)
       | o => err s!"C12: unknown edit {o}")
     let m := orthoM fsqrt c
-    let s0 := if isNew then newAtom fsqrt c p u else parseAtom m p u
-    let s := history m s0 es
-    let so := historyOld m s0 es
+    let a0 := if isNew then newAtom fsqrt c p u else parseAtom m p u
+    let s := fileHistory fsqrt (readFile fsqrt c a0) es
+    let so := fileHistoryOld fsqrt (readFile fsqrt c a0) es
     let ofU (u : U6 Float) : Json := ofFloats [u.u11, u.u22, u.u33, u.u23, u.u13, u.u12]
-    return Json.mkObj [("frac", ofV3 s.frac), ("cart", ofV3 s.cart), ("uvals", ofU s.uvals),
-                       ("ueq_aniso", ofFloat (ueqAniso fsqrt c s.uvals)), ("cart_old", ofV3 so.cart),
-                       ("spec_frac", ofV3 (specFrac p es)), ("spec_uvals", ofU (specUvals u es))]
+    return Json.mkObj [("frac", ofV3 s.atom.frac), ("cart", ofV3 s.atom.cart), ("uvals", ofU s.atom.uvals),
+                       ("cart_shx", ofV3 (mulVec s.om s.atom.frac)),
+                       ("ueq_aniso", ofFloat (ueqAniso fsqrt s.cell s.atom.uvals)),
+                       ("cart_old", ofV3 so.atom.cart), ("cart_shx_old", ofV3 (mulVec so.om so.atom.frac)),
+                       ("spec_frac", ofV3 (specFrac p (atomEdits es))), ("spec_uvals", ofU (specUvals u (atomEdits es))),
+                       ("spec_V", ofFloat (fsqrt (gramDet (metric (specCell c es)))))]
   | _ => err s!"C12: unknown op {op}"
 
 end Shelx.Drv.C12
